@@ -50,7 +50,14 @@ def motif_song(rng, T):
             k = rng.choice([1, 2, 2, 3, 4, 5, 8, 17])
             evs += m * k
             if rng.random() < 0.5 and len(m) > 1:
-                evs += m[:rng.randrange(1, len(m))]
+                # a proper prefix of the motif, cut at a depth-0 boundary
+                cuts, d = [], 0
+                for i, e in enumerate(m[:-1]):
+                    if e[0] == T["LOOP_START"]: d += 1
+                    if e[0] == T["LOOP_END"]: d -= 1
+                    if d == 0: cuts.append(i + 1)
+                if cuts:
+                    evs += m[:rng.choice(cuts)]
             if rng.random() < 0.3:
                 evs += g.seq(0, False, False, n=rng.randrange(1, 4))
         song[t] = evs
@@ -64,7 +71,9 @@ def motif_song(rng, T):
             if d == 0: cuts.append(i + 1)
         k = rng.choice(cuts)
         song[0] = evs[:k] + [g.ev("SEGNO")] + evs[k:]
-    for sid in g.subs:
+    subs = list(g.subs)
+    g.subs = []
+    for sid in subs:
         song[sid] = g.seq(1, False, False, n=rng.randrange(1, 4))
     if rng.random() < 0.25:
         song[rng.choice([20, 32, 200])] = rng.choice(motifs) * 2
